@@ -254,6 +254,67 @@ func c18MoreDefs(g *gen) {
 		g.def(it.def, "list string", coqStrList(shape), it.rel+" "+it.fn+": a relative link target met on the way becomes filepath.Join of these (traversed = strings.Join of the names walked so far, target = the link's text, root = the separator, var = another local)")
 	}
 
+	// --- DirFS: which stat classifies the entries of an existing root ----------------------
+	// in the fs.WalkDir callback of DirFS: the calls assigned to the variable whose .Mode() decides
+	// between Mkdir / Symlink / Mknod / OpenFile ($i = the callback's i-th parameter)
+	var mirror []string
+	if dfd := findFunc("pkg/apk/fs/rwosfs.go", "", "DirFS"); dfd != nil {
+		ast.Inspect(dfd, func(n ast.Node) bool {
+			fl, ok := n.(*ast.FuncLit)
+			if !ok || fl.Type.Params == nil || len(fl.Type.Params.List) < 2 || mirror != nil {
+				return true
+			}
+			params := map[string]string{}
+			i := 0
+			for _, f := range fl.Type.Params.List {
+				for _, nm := range f.Names {
+					params[nm.Name] = fmt.Sprintf("$%d", i)
+					i++
+				}
+			}
+			modeVar := ""
+			ast.Inspect(fl, func(m ast.Node) bool {
+				if c, ok := m.(*ast.CallExpr); ok {
+					if se, ok := c.Fun.(*ast.SelectorExpr); ok && se.Sel.Name == "Mode" {
+						if id, ok := se.X.(*ast.Ident); ok && modeVar == "" {
+							modeVar = id.Name
+						}
+					}
+				}
+				return true
+			})
+			if modeVar == "" {
+				return true
+			}
+			ast.Inspect(fl, func(m ast.Node) bool {
+				as, ok := m.(*ast.AssignStmt)
+				if !ok || len(as.Lhs) < 1 || len(as.Rhs) != 1 {
+					return true
+				}
+				if id, ok := as.Lhs[0].(*ast.Ident); !ok || id.Name != modeVar {
+					return true
+				}
+				if c, ok := as.Rhs[0].(*ast.CallExpr); ok {
+					t := exprText(c.Fun)
+					if se, ok := c.Fun.(*ast.SelectorExpr); ok {
+						if id, ok := se.X.(*ast.Ident); ok {
+							if p, ok := params[id.Name]; ok {
+								t = p + "." + se.Sel.Name
+							}
+						}
+					}
+					mirror = append(mirror, t)
+				}
+				return true
+			})
+			return true
+		})
+	}
+	if len(mirror) == 0 {
+		fail("pkg/apk/fs/rwosfs.go: DirFS: the WalkDir callback's `fi, err := <stat>` feeding fi.Mode() not found")
+	}
+	g.def("dirfs_mirror_stat", "list string", coqStrList(mirror), "DirFS: in the walk that mirrors an existing root into the overlay, the calls whose result's Mode() classifies an entry ($i = the callback's i-th parameter; $1.Info is the DirEntry's own lstat)")
+
 	// --- every file-creating / renaming / removing call of expandapk and paths ----------
 	for _, it := range [][2]string{{"pkg/apk/expandapk", "expandapk_sites"}, {"pkg/paths", "paths_sites"}} {
 		sites := c18Sites(it[0])
